@@ -405,7 +405,7 @@ class CreateUniqueConstraintOp(AddConstraintOp):
         uq_constraint = cast("UniqueConstraint", constraint)
 
         kw: Dict[str, Any] = {}
-        if uq_constraint.deferrable:
+        if uq_constraint.deferrable is not None:
             kw["deferrable"] = uq_constraint.deferrable
         if uq_constraint.initially:
             kw["initially"] = uq_constraint.initially
@@ -545,7 +545,7 @@ class CreateForeignKeyOp(AddConstraintOp):
             kw["ondelete"] = fk_constraint.ondelete
         if fk_constraint.initially:
             kw["initially"] = fk_constraint.initially
-        if fk_constraint.deferrable:
+        if fk_constraint.deferrable is not None:
             kw["deferrable"] = fk_constraint.deferrable
         if fk_constraint.use_alter:
             kw["use_alter"] = fk_constraint.use_alter
